@@ -710,12 +710,27 @@ void mmd_export_toc_entry_opendocument(DString * out, const char * source, scrat
 			if (entry_level >= level) {
 				// This entry is a direct descendant of the parent
 				scratch->label_counter = (int) * counter;
-				temp_char = label_from_header(source, entry, scratch);
-				printf("<text:p text:style-name=\"TOC_Item\"><text:a xlink:type=\"simple\" xlink:href=\"#%s\" text:style-name=\"Index_20_Link\" text:visited-style-name=\"Index_20_Link\">", temp_char);
+				temp_char = NULL;
+
+				if (scratch->extensions & EXT_NO_LABELS) {
+					// Headers carry no bookmark, so there is nothing to link to (and
+					// asking for the label would retype a trailing `[bracket]` as a
+					// manual label, which it is not when labels are off)
+					print_const("<text:p text:style-name=\"TOC_Item\">");
+				} else {
+					temp_char = label_from_header(source, entry, scratch);
+					printf("<text:p text:style-name=\"TOC_Item\"><text:a xlink:type=\"simple\" xlink:href=\"#%s\" text:style-name=\"Index_20_Link\" text:visited-style-name=\"Index_20_Link\">", temp_char);
+				}
+
 				header_clean_trailing_whitespace(entry->child, source);
 				mmd_export_token_tree_opendocument(out, source, entry->child, scratch);
 				trim_trailing_whitespace_d_string(out);
-				print_const(" <text:tab/>1</text:a></text:p>\n");
+
+				if (scratch->extensions & EXT_NO_LABELS) {
+					print_const(" <text:tab/>1</text:p>\n");
+				} else {
+					print_const(" <text:tab/>1</text:a></text:p>\n");
+				}
 
 				if (*counter < scratch->header_stack->size - 1) {
 					next = stack_peek_index(scratch->header_stack, *counter + 1);
